@@ -58,7 +58,7 @@ GEN = {
     'stringTrim': ['str'], 'regexEscape': ['str'], 'urlEncode': ['str'], 'urlEncodeComponent': ['str'],
 }
 STRS = ['', 'a', 'b', 'ab', 'ba', 'abab', 'a,b,,c', ' a b ', 'n', 'a.b*c', 'x+y?', 'A b/c?d=e&f', 'aXbXc', 'zz']
-HARD_STRS = ['été', 'a\nb', '\t x  ', "it's", 'back\\slash', '"q"', '中文', '\U0001f600!', 'á', '\x00\x7f',
+HARD_STRS = ['\ufeffbom', 'mob\ufeff', ' \ufeff x \ufeff ', '\u00a0nbsp\u2003', '\x1c sep \x1f', 'été', 'a\nb', '\t x  ', "it's", 'back\\slash', '"q"', '中文', '\U0001f600!', 'á', '\x00\x7f',
              '100% sure', '[a-z]{2}|(b)^$', 'a#b ~c', ' pad ', 'İIß']
 KEYS = ['a', 'b', 'n', 'k1', '']
 
@@ -695,7 +695,26 @@ def run(tier):
             cand = sorted(r.sample(cand, budget2))
         cases2 = [{'text': seqs[i][0].text_plain(), 'globals': {k: ['str', v] for k, v in seqs[i][0].globals.items()}, 'max': 5000,
                    'want_model': True} for i in cand]
+        # arraySort with a script comparator whose results are fractions, negated, or constant (the sign decides, never the magnitude)
+        import functools
+        pyc = {'(a - b) / 8': lambda a, b: (a - b) / 8, 'b - a': lambda a, b: b - a, '(a - b) * 0.5': lambda a, b: (a - b) * 0.5,
+               'a * 0.25 - b * 0.25': lambda a, b: a * 0.25 - b * 0.25, '0': lambda a, b: 0,
+               'if(a < b, 0 - 0.001, if(a > b, 0.001, 0))': lambda a, b: -0.001 if a < b else (0.001 if a > b else 0)}
+        sort_expect = {}
+        for body, fpy in pyc.items():
+            for _ in range(4 if not thorough else 40):
+                xs = [r.choice([0, 1, 2, 3, 0.5, 1.5, 2.25, -1, 7]) for _ in range(r.randint(0, 7))]
+                src = (f"function cmpf(a, b):\n    return {body}\nendfunction\narr = arrayNew({', '.join(map(str, xs))})\n"
+                       "srt = arraySort(arr, cmpf)\nreturn arrayNew(arr, srt, arraySort(arrayCopy(arr)))\n")
+                sort_expect[len(cases2)] = (sorted(xs, key=functools.cmp_to_key(fpy)), sorted(xs), src)
+                cases2.append({'text': src, 'globals': {}, 'max': 5000, 'want_model': True})
         impl2 = core.run_impl('run_script', cases2)
+        for ci, (want, plain, src) in sort_expect.items():       # direct oracle: a stable sort by the SIGN of the comparator's result
+            got = ip.plain_of_tree(impl2[ci]['res']) if 'res' in impl2[ci] else None
+            if not (isinstance(got, list) and len(got) == 3 and [float(x) for x in got[0]] == [float(x) for x in want]
+                    and [float(x) for x in got[1]] == [float(x) for x in want] and [float(x) for x in got[2]] == [float(x) for x in plain]):
+                chk.oracle_fail.append({'class': 'arraySort-with-a-comparator-is-not-the-stable-sort-by-sign', 'source': src,
+                                        'expected': [want, want, plain], 'got': impl2[ci].get('res') or impl2[ci]})
         terms2, used2 = [], []
         for c, res in zip(cases2, impl2):
             if 'model' not in res or 'host' in res:
